@@ -13,6 +13,7 @@
     root_and_object_mediatypes  "/" carries the document's media type, every object folder its object's
     parts_present               every object's styles/content/(settings).xml under its folder, holding its own part
     pictures_present            every registered picture under folder ++ href, stored, its bytes, its media type
+    thumbnail_present           the thumbnail member with its bytes, listed with the media type the document carries for it
     names_nodup       [DocOK]   no member name twice
     manifest_nodup    [DocOK, plainHrefs]   no manifest path twice (exactly one root entry)
     register_nodup              the registry is a dict: hrefs pairwise distinct by construction
@@ -112,7 +113,7 @@ theorem balanced_savePicsKids (F : Str) (k : Nat) (ds : List Doc) :
     simp [savePicsKids, balanced_savePics (F ++ objPrefix k) c, balanced_savePicsKids F (k+1) cs]
 end
 
-theorem balanced_thumbOut (t : Option Bytes) : names (thumbOut t) = filePaths (thumbOut t) := by
+theorem balanced_thumbOut (t : Option Thumb) : names (thumbOut t) = filePaths (thumbOut t) := by
   cases t <;> simp [thumbOut]
 
 theorem balanced_extrasOut (es : List Extra) : names (extrasOut es) = filePaths (extrasOut es) := by
@@ -158,7 +159,7 @@ def objFolderEntries1 (F : Str) : Doc → List ME
   | ⟨_, mt, _, _, _, _, _, kids⟩ => ⟨F, mt, true⟩ :: objFolderEntries F 1 kids
 end
 
-def thumbFolderEntries : Option Bytes → List ME
+def thumbFolderEntries : Option Thumb → List ME
   | none => []
   | some _ => [⟨sThumbDir, [], true⟩]
 
@@ -355,6 +356,22 @@ theorem pictures_present (d : Doc) :
   have := pics_sub [] d p hp pic hpic
   simp [save, this.1, this.2]
 
+
+/-- **C03 (thumbnail)**: a thumbnail is the member "Thumbnails/thumbnail.png", deflated, with exactly its
+    bytes, listed with the media type the document carries for it ("" for a thumbnail set through the
+    API, the source manifest's media type for a loaded one — fix f4df084). -/
+theorem thumbnail_present (d : Doc) (t : Thumb) (h : d.thumbnail = some t) :
+    (⟨sThumb, .deflated, [], .bytes t.content⟩ : ZE) ∈ (save d).zip
+      ∧ (⟨sThumb, t.mediatype, false⟩ : ME) ∈ (save d).man := by
+  simp [save, h, thumbOut]
+
+/-- `load` keeps the media type the manifest gave "Thumbnails/thumbnail.png" -/
+theorem load_keeps_thumbnail_mediatype :
+    (load ⟨some sOdt, [(sSlash, sOdt), (sContent, sTextXml), (sThumbDir, []), (sThumb, [105])],
+           [(sContent, [60]), (sThumb, [5, 6])], []⟩).map
+      (fun d => (d.thumbnail, (save d).man.filter (fun e => e.path == sThumb)))
+      = some (some ⟨[5, 6], [105]⟩, [⟨sThumb, [105], false⟩]) := by
+  decide
 
 /-! ### no member name occurs twice -/
 
@@ -646,10 +663,10 @@ theorem names_extrasOut (es : List Extra) :
     · simp [h]
     · cases hc : e.content <;> simp [h, hc]
 
-theorem names_thumbOut (t : Option Bytes) : ∀ n ∈ names (thumbOut t), n = sThumb := by
+theorem names_thumbOut (t : Option Thumb) : ∀ n ∈ names (thumbOut t), n = sThumb := by
   cases t <;> simp [thumbOut]
 
-theorem nodup_thumbOut (t : Option Bytes) : (names (thumbOut t)).Nodup := by
+theorem nodup_thumbOut (t : Option Thumb) : (names (thumbOut t)).Nodup := by
   cases t <;> simp [thumbOut]
 
 /-- **C03 (no member name twice)**: under `DocOK d` the member names of the saved package are pairwise
@@ -879,7 +896,7 @@ theorem folder_iff_slash (d : Doc) (h : DocOK d = true) (hp : plainHrefs d = tru
   have hth : SlashOK (thumbOut d.thumbnail) := by
     cases d.thumbnail with
     | none => exact slashOK_empty
-    | some b => intro e he; simp [thumbOut] at he; rcases he with rfl | rfl <;> decide
+    | some b => intro e he; simp [thumbOut] at he; rcases he with rfl | rfl <;> simp <;> decide
   have h0 : ∀ z, SlashOK (emZ z) := by intro z e he; simp at he
   exact SlashOK.append (SlashOK.append (SlashOK.append (SlashOK.append (SlashOK.append (h0 _)
     (slashOK_saveXml true [] d (Or.inl rfl))) (slashOK_savePics [] d hp)) hth) hx) (h0 _)
@@ -1081,7 +1098,7 @@ theorem register_nodup (regs : List Pic) : ((regs.foldl register []).map (·.hre
 /-- a document with an object in an object, pictures at every level (one by file name), a thumbnail,
     a file extra and a directory extra -/
 def sampleDoc : Doc :=
-  ⟨0, sOdt, true, [⟨sPictures ++ [97], .image [1, 2], [105]⟩], some [7],
+  ⟨0, sOdt, true, [⟨sPictures ++ [97], .image [1, 2], [105]⟩], some ⟨[7], [105]⟩,
     [⟨[120, 47, 121], [], some [9]⟩, ⟨[120, 47], [], none⟩], [],
     [⟨1, sOdt, false, [⟨sPictures ++ [97], .file [102], []⟩], none, [], [], [⟨2, sOdt, true, [⟨sPictures ++ [98], .image [], []⟩], none, [], [], []⟩]⟩,
      ⟨3, sOdt, false, [], none, [], [], []⟩]⟩
